@@ -1192,6 +1192,7 @@ func runC08(ctx *Ctx) {
 	}
 	runExhaustive(ctx)
 	runC08Lend(ctx)
+	runC08Copy(ctx)
 }
 
 func (mc *machine) step(i int, op Op) error {
@@ -1211,6 +1212,9 @@ func (mc *machine) step(i int, op Op) error {
 func checkC08(ctx *Ctx, c *Case) error {
 	if c.Sub == "lend" {
 		return checkC08Lend(ctx, c)
+	}
+	if c.Sub == "copydesc" {
+		return checkC08Copy(ctx, c)
 	}
 	t, err := mustType(c.Type)
 	if err != nil {
